@@ -508,6 +508,33 @@ pub fn run_c07<C: NatCtx>(v: &mut Env<C>) {
                     }
                 }
             }
+            // two COORDINATED invalid pairs: pair 0 proves a wrong factor gr0^y, pair 1 a true factor, and the
+            // errors of their generator-side equations (g^s = t1 * pk^c) cancel in the product over the batch;
+            // each pair is invalid on its own, so the batch must be rejected whatever the group size
+            if size >= 2 {
+                let yy = (&sk + 1u32) % &q;
+                let (r1, r2) = (v.rnd_exp(), v.rnd_exp());
+                let (gr0, gr1) = (C::e_val(&cts[0].gr), C::e_val(&cts[1].gr));
+                let d0 = gr0.modpow(&yy, &p);
+                let (t10, t20) = (g.modpow(&r1, &p), gr0.modpow(&r1, &p));
+                let c0 = C::x_val(&zv::cp_challenge(&zkp, &v.e(&g), &v.e(&gr0), &v.e(&pkv), &v.e(&d0), &v.e(&t10), &v.e(&t20), Some(&cts[0].mhr), &label).unwrap());
+                let s0 = (&r1 + &c0 * &yy) % &q;
+                let delta = (&c0 * ((&yy + &q - &sk) % &q)) % &q;
+                let d1 = gr1.modpow(&sk, &p);
+                let (t11, t21) = (g.modpow(&((&r2 + &delta) % &q), &p), gr1.modpow(&r2, &p));
+                let c1 = C::x_val(&zv::cp_challenge(&zkp, &v.e(&g), &v.e(&gr1), &v.e(&pkv), &v.e(&d1), &v.e(&t11), &v.e(&t21), Some(&cts[1].mhr), &label).unwrap());
+                let s1 = (&r2 + &c1 * &sk) % &q;
+                if delta != big(0) {
+                    let mut f2 = fs.clone();
+                    f2[0] = v.e(&d0);
+                    f2[1] = v.e(&d1);
+                    let mut pf2: Vec<ChaumPedersen<C>> = pfs.iter().map(|p| mk_cp::<C>(&C::e_val(&p.commitment1), &C::e_val(&p.commitment2), &C::x_val(&p.challenge), &C::x_val(&p.response))).collect();
+                    pf2[0] = mk_cp::<C>(&t10, &t20, &c0, &s0);
+                    pf2[1] = mk_cp::<C>(&t11, &t21, &c1, &s1);
+                    let out = batch(v, &cts, &f2, &pf2, &pkv, &label);
+                    v.h.check(out == Out::Ok(Val::Bool(false)), || format!("a batch of {} with two coordinated invalid pairs (wrong factor {:x} for gr {:x} at position 0; generator-side errors cancelling over the batch) was not rejected: {:?} on {} sk={:x}", size, d0, gr0, out, tok, sk));
+                }
+            }
             // another key, another label
             let pk2 = (&pkv * &g) % &p;
             let out = batch(v, &cts, &fs, &pfs, &pk2, &label);
